@@ -282,6 +282,7 @@ func tcpEngine(rng *Rng, n int, out *Out, args map[string]string) {
 	for k := 0; k < 1+n/100; k++ {
 		tcpDirectedDeadline(rng.Fork(), out)
 		tcpDirectedBulk(rng.Fork(), e, out)
+		tcpDirectedRequestResponse(rng.Fork(), e, out)
 	}
 	for _, l := range tg.lns {
 		l.Close()
